@@ -373,7 +373,7 @@ class MTransport:
     def write(self, data):
         if self.world.io_faults and self.world.choice("write_fails"):
             self.world.throw(OSError, "write failed")
-        self.world.writes.append((self.name, data))
+        self.world.writes.append((self.name, data.snapshot() if hasattr(data, "snapshot") else data))
 
 
 class _SeqSource:
@@ -446,7 +446,7 @@ def install(interp, world):
     def m_os_write(interp_, fd, data):
         if world.io_faults and world.choice("write_fails"):
             world.throw(OSError, "write failed")
-        world.writes.append((fd, data))
+        world.writes.append((fd, data.snapshot() if hasattr(data, "snapshot") else data))
         return len(data) if hasattr(data, "__len__") else 0
 
     def m_os_close(interp_, fd):
